@@ -285,12 +285,7 @@ def build():
     U.extract(S.CP, "impl<'l> CelCompiler<'l>", fns={
         'parse_primary': prim,
         'parse_expression': A(stub=True, ret='r', requires=[CURSOR], ensures=[UNTOUCHED, result_clause(f'sp_expr({HERE})', ())]),
-        'parse_expression_list': A(stub=True, ret='r', requires=[CURSOR], ensures=[UNTOUCHED, ('list_of_expressions', f'''r is Ok ==> ({{
-                let l = sp_expr_list({HERE}, ending);
-                &&& l is Some && final(self).tokenizer.pos() == l->Some_0.end && final(self).next_label == l->Some_0.lbl && final(self).tokenizer.pos() >= old(self).tokenizer.pos()
-                &&& r->Ok_0@.len() == l->Some_0.items.len()
-                &&& forall|i: int| 0 <= i < r->Ok_0@.len() ==> (#[trigger] r->Ok_0@[i]).1 == l->Some_0.items[i].ast && r->Ok_0@[i].0.details@ == l->Some_0.items[i].details && node_view(r->Ok_0@[i].0.inner) == l->Some_0.items[i].node
-            }})''')]),
+        'parse_expression_list': A(stub=True, ret='r', requires=[CURSOR, S.ENDING_REQ], ensures=[UNTOUCHED, S.EXPR_LIST_CLAUSE]),
         'parse_member': member_contract(),
         'check_for_const': A(ret='r', ensures=[
             ('keeps_the_identifiers', 'r.details@ == member_prime_node.details@', ('C17',)),
